@@ -11,6 +11,7 @@ import Driver.OpsSeq
 import Driver.OpsJson
 import Driver.OpsStream
 import Driver.OpsOpt
+import Driver.OpsFiles
 namespace Mxj.Drv
 
 def dispatch (op : String) (args : List String) : Out :=
@@ -44,6 +45,8 @@ def dispatch (op : String) (args : List String) : Out :=
   | "getjson" => runP opGetJson args
   | "bread" => runP opBread args
   | "opts" => runP opOpts args
+  | "xfile" => runP opXfile args
+  | "jfile" => runP opJfile args
   | "implonly" => "na"
   | _ => "bad-op"
 
